@@ -14,9 +14,11 @@ SB = {'SB_Diamond': {'0': [], '1': [], '2': [1], '3': [1], '4': [2, 3]},
       'SB_One': {'0': [], '1': []}}
 PB_FORK = [[], [1], [1]]
 PB = {'PB_Fork': PB_FORK, 'PB_Tree4': [[], [1], [1], [2]]}
+SB['SB_Chain3'] = {'0': [], '1': [], '2': [1], '3': [2]}
 SB['SB_Three'] = {'0': [], '1': [], '2': [1], '3': []}
 SB['SB_Empty'] = {'0': [], '1': [], '2': []}
-RB = {'RB_Overlap3': [[], [1], [2, 1]],
+RB = {'RB_Chain3Extra': [[], [1], [2], []],
+      'RB_Overlap3': [[], [1], [2, 1]],
       'RB_None5': [[], [], [], [], []],
       'RB_Diamond5': [[], [], [2], [2], [3, 4]],
       'RB_One': [[]], 'RB_Two': [[], [1]], 'RB_None3': [[], [], []],
@@ -97,6 +99,24 @@ SUBSIB = cfgd(NS=1, InitSBases='<-SB_One', Names='<-NamesE',
               SubKeys='<-SubKeysSib', LookKeys='<-LookKeysSib', MaxLive=3,
               MaxDepth=5)
 
+# an ANCESTOR of the looked-up specification is re-based (the lookup object is
+# a dependent of the looked-up specification only; the notification it gets
+# names the ancestor as the origin of the change)
+ANCESTOR = cfgd(NS=3, InitSBases='<-SB_Chain3', Names='<-NamesE',
+                Muts='{"reg","sub","specbases"}',
+                Queries='{"lookup","lookupAll","subs"}',
+                RegKeys='<-RegKeysAnc', SubKeys='<-SubKeysAnc',
+                LookKeys='<-LookKeysAnc', SBaseChoices='<-SBaseChoicesAnc',
+                MaxLive=2, MaxDepth=5)
+# the TOP of a three-registry chain gets (and loses) a base of its own
+TOPBASE = cfgd(NS=1, NG=4, InitSBases='<-SB_One',
+               InitRBases='<-RB_Chain3Extra', Names='<-NamesE',
+               Muts='{"reg","sub","regbases"}', Queries='{"lookup","subs"}',
+               RegKeys='<-RegKeysChain', SubKeys='<-SubKeysChain',
+               LookKeys='<-LookKeysChain', RBaseChoices='<-RBaseChoicesTop',
+               MaxLive=2, MaxDepth=5)
+TOPBASE_OPT = dict(sb='SB_One', rb='RB_Chain3Extra')
+
 # Components layer (MC_RegistryComp): two / three component registries, re-run
 # constructors (fresh registries under a live component) and re-assigned
 # __bases__ (also the same tuple): NG counts registry IDENTITIES
@@ -127,6 +147,17 @@ PLAN = {
              dict(sb='SB_Diamond', rb='RB_One', num=200, depth=15)),
             ('extendors d5', 'edges', EXT,
              dict(sb='SB_One', rb='RB_One', pb='PB_Tree4')),
+            # "most specific" includes "nearest registry first": chains
+            # whose members are re-based, rebuilt and changed
+            ('chain3 sim push', 'sim',
+             dict(CHAIN, InitRBases='<-RB_Chain3', MaxLive=3, MaxDepth=100),
+             dict(sb='SB_One', rb='RB_Chain3', num=200, depth=14)),
+            ('chain3 sim verify', 'sim',
+             dict(CHAIN, InitRBases='<-RB_Chain3', MaxLive=3, MaxDepth=100,
+                  Flavour='"verify"'),
+             dict(sb='SB_One', rb='RB_Chain3', num=200, depth=14)),
+            ('top of a chain re-based d5 verify', 'edges',
+             dict(TOPBASE, Flavour='"verify"'), TOPBASE_OPT),
         ],
         'thorough': [
             ('extendors d7', 'edges', dict(EXT, MaxDepth=7),
@@ -152,6 +183,16 @@ PLAN = {
                   Muts='{"sub","unsub","regbases"}', Queries='{"subs"}',
                   Vals='{1,2}', ValMode='"any"', MaxLive=3),
              dict(sb='SB_One', rb='RB_Chain3')),
+            ('top of a chain re-based d5 push', 'edges',
+             dict(TOPBASE, Muts='{"sub","regbases"}', Queries='{"subs"}'),
+             TOPBASE_OPT),
+            ('top of a chain re-based d5 verify', 'edges',
+             dict(TOPBASE, Muts='{"sub","regbases"}', Queries='{"subs"}',
+                  Flavour='"verify"'), TOPBASE_OPT),
+            ('chain3 sim verify', 'sim',
+             dict(CHAIN, InitRBases='<-RB_Chain3', MaxLive=3, MaxDepth=100,
+                  Flavour='"verify"'),
+             dict(sb='SB_One', rb='RB_Chain3', num=200, depth=14)),
         ],
         'thorough': [
             ('subs<=3', 'states', dict(SUBS, MaxLive=3),
@@ -192,6 +233,11 @@ PLAN = {
              dict(sb='SB_Three', rb='RB_One')),
             ('empty declaration d5 push', 'edges', EMPTYSPEC,
              dict(sb='SB_Empty', rb='RB_One', empty_spec=2)),
+            ('ancestor re-based d5 push', 'edges', ANCESTOR,
+             dict(sb='SB_Chain3', rb='RB_One')),
+            ('ancestor re-based d5 verify', 'edges',
+             dict(ANCESTOR, Flavour='"verify"'),
+             dict(sb='SB_Chain3', rb='RB_One')),
             ('entry points x cache d6 verify', 'edges',
              dict(EPCACHE, Flavour='"verify"'),
              dict(sb='SB_One', rb='RB_Two')),
@@ -223,6 +269,11 @@ PLAN = {
             ('watch d7 verify', 'edges', dict(WATCH, MaxDepth=7,
                                               Flavour='"verify"'),
              dict(sb='SB_Three', rb='RB_One')),
+            ('ancestor re-based d7 push', 'edges',
+             dict(ANCESTOR, MaxDepth=7), dict(sb='SB_Chain3', rb='RB_One')),
+            ('ancestor re-based d7 verify', 'edges',
+             dict(ANCESTOR, MaxDepth=7, Flavour='"verify"'),
+             dict(sb='SB_Chain3', rb='RB_One')),
             ('cache-sim', 'sim', dict(CACHE, MaxLive=4, MaxDepth=100),
              dict(sb='SB_Chain2', rb='RB_Two', num=5000, depth=40)),
             ('cache-sim verify', 'sim', dict(CACHE, MaxLive=4, MaxDepth=100,
@@ -260,6 +311,10 @@ PLAN = {
              dict(CHAIN, InitRBases='<-RB_Chain3', MaxLive=3, MaxDepth=100,
                   Flavour='"verify"'),
              dict(sb='SB_One', rb='RB_Chain3', num=300, depth=14)),
+            ('top of a chain re-based d5 push', 'edges', TOPBASE,
+             TOPBASE_OPT),
+            ('top of a chain re-based d5 verify', 'edges',
+             dict(TOPBASE, Flavour='"verify"'), TOPBASE_OPT),
             # Components: constructors re-run on live objects, __bases__
             # re-assigned (the same tuple included)
             ('components reinit d5', 'edges', COMP,
